@@ -126,21 +126,34 @@ def work_dynamic(chunk, st):
         dh = p.get('dh_modulus_sizes') or {}
         gex = P.GexPolicy(sorted(set(dh.values()))[:1], P.STRICT) if dh else None
         kw = dict(kex=p['kex'], key=keys, enc=p['ciphers'], mac=p['macs'], banner=b'SSH-2.0-OpenSSH_9.6')
-        for fmt in ('text', 'json'):
-            if p['server_policy']:
-                res = H.audit(P.Server(host_keys=hk, gex=gex, **kw), opts=['-n', '--skip-rate-test'] + (['-j'] if fmt == 'json' else []))
-            else:
-                res = H.client_audit(P.Client(**kw), opts=['-n'] + (['-j'] if fmt == 'json' else []))
-            st.execution(res.world, outcome=('policy-peer', res.status, fmt), root=('policy-peer', pname, fmt), nontrivial=('policy-peer', pname, fmt))
-            if res.status == 3 or res.status not in (0, 2):
-                st.violation('peer-built-from-policy:exit-%s' % res.status, {'policy': pname, 'fmt': fmt, 'stdout': res.stdout[-300:]})
-                continue
-            if fmt == 'text':
-                fails = [(c, n, t) for c, n, lv, t in report.TextReport(res.stdout).findings() if lv == 'fail']
-            else:
-                fails = [(c, n, t) for c, n, lv, t in report.json_findings(json.loads(res.stdout)) if lv == 'fail']
-            if fails:
-                st.violation('peer-built-from-policy-shows-failure', {'policy': pname, 'fmt': fmt, 'failures': fails[:5]})
+        variants = [('required-only', kw, hk)]
+        opt = [k for k in (p.get('optional_host_keys') or []) if not k.startswith('sk-')]
+        if opt and p['server_policy']:
+            keys2 = keys + opt
+            hk2 = dict(hk)
+            for k in opt:
+                sz = (sizes.get(k) or {})
+                if k == 'ssh-ed25519-cert-v01@openssh.com':
+                    hk2[k] = wire.ed25519_cert_tree(wire.ed25519_blob_tree(b'\x44' * 32))
+                elif 'rsa' in k and '-cert-' in k:
+                    hk2[k] = wire.rsa_cert_tree(sz.get('hostkey_size') or 4096, wire.rsa_blob_tree(sz.get('ca_key_size') or 4096))
+            variants.append(('with-optional-host-keys', dict(kw, key=keys2), hk2))
+        for vname, kw, hk in variants:
+          for fmt in ('text', 'json'):
+              if p['server_policy']:
+                  res = H.audit(P.Server(host_keys=hk, gex=gex, **kw), opts=['-n', '--skip-rate-test'] + (['-j'] if fmt == 'json' else []))
+              else:
+                  res = H.client_audit(P.Client(**kw), opts=['-n'] + (['-j'] if fmt == 'json' else []))
+              st.execution(res.world, outcome=('policy-peer', res.status, fmt), root=('policy-peer', pname, vname, fmt), nontrivial=('policy-peer', pname, vname, fmt))
+              if res.status == 3 or res.status not in (0, 2):
+                  st.violation('peer-built-from-policy:exit-%s:%s' % (res.status, vname), {'policy': pname, 'fmt': fmt, 'variant': vname, 'stdout': res.stdout[-300:]})
+                  continue
+              if fmt == 'text':
+                  fails = [(c, n, t) for c, n, lv, t in report.TextReport(res.stdout).findings() if lv == 'fail']
+              else:
+                  fails = [(c, n, t) for c, n, lv, t in report.json_findings(json.loads(res.stdout)) if lv == 'fail']
+              if fails:
+                  st.violation('peer-built-from-policy-shows-failure:%s' % vname, {'policy': pname, 'fmt': fmt, 'variant': vname, 'failures': fails[:5]})
         st.sample({'policy': pname, 'audited_as': 'server' if p['server_policy'] else 'client'}, cap=6)
 
 
